@@ -11,6 +11,8 @@ package main
 //   fault      two peers; the sync peer disconnects or stalls at every message index of a short script (aged ticker for stalls)
 //   lagging    the first peer's chain is a strict prefix of the second's
 //   fork       competing branches: stale fork present in the store, store tip on a losing branch, peers on different branches
+//   handshake  a peer drops during the handshake (before its version / after its version before its verack / right after the
+//              verack), an honest peer connected before or after must be synced from
 //   random     seeded mixtures
 
 import (
@@ -339,6 +341,33 @@ func runC06(c *Ctx) error {
 					Nodes: []*nodeSpec{{P: 1, Cap: cp, Chain: seqInts(100, 6)}}, Cmds: []string{"C1", "R60"}}
 				if err := g.do(sc, "fork-heavy-short-branch"); err != nil {
 					return err
+				}
+			}
+		}
+	}
+
+	// ---- a peer drops during the handshake; an honest peer must be synced from ----
+	{
+		n := 4
+		u := &History{Subs: linearSubs(2, genesisID, n, bitsW2, tsOld)}
+		cpsV := [][]cpSpec{{{1, 2}}, {{2, 3}, {4, 5}}}
+		scripts := [][]string{{"K1.0", "C2", "R40"}, {"K1.1", "C2", "R40"}, {"K1.1", "Q1", "C2", "R40"}, {"C2", "K1.1", "R40"},
+			{"C1", "X1", "C2", "R40"}, {"K1.1", "C2", "D2", "R40", "T1", "R40"}}
+		if c.Thorough() {
+			scripts = append(scripts, []string{"K1.1", "K3.1", "C2", "R60"}, []string{"K3.0", "K1.1", "C2", "Q1", "R60"},
+				[]string{"C2", "D2", "K1.1", "X2", "C3", "R60"}, []string{"K1.1", "C2", "T0", "R40"}, []string{"K1.1", "C2", "C3", "R60"})
+		}
+		for _, cps := range cpsV {
+			for _, cmds := range scripts {
+				for _, cp := range []int{2000, 1} {
+					if cp == 1 && !c.Thorough() {
+						continue
+					}
+					sc := &Scenario{Eng: "d", Cps: cps, U: u,
+						Nodes: []*nodeSpec{{P: 1, Cap: 2000, Chain: seqInts(2, n)}, {P: 2, Cap: cp, Chain: seqInts(2, n)}, {P: 3, Cap: 2000, Chain: seqInts(2, n)}}, Cmds: cmds}
+					if err := g.do(sc, "handshake"); err != nil {
+						return err
+					}
 				}
 			}
 		}
